@@ -102,10 +102,11 @@ FUNCS = {
     "copy.deepcopy": dict(coq="py_deepcopy", kind="pure"),
     "SeqRecord": dict(coq="mk_SeqRecord", kind="pure"),
     "SeqRecord/1": dict(coq="mk_SeqRecord1", kind="pure"),
-    "CircularRecord": dict(coq="bio_CircularRecord_of", kind="exc"),
+    "CircularRecord": dict(coq="CircularRecord_new", kind="exc"),
     "FeatureLocation": dict(coq="mk_FeatureLocation", kind="pure", kwargs=["start", "end", "strand", "ref", "ref_db"]),
     "CompoundLocation": dict(coq="mk_CompoundLocation", kind="pure"),
     "SeqFeature": dict(coq="mk_SeqFeature", kind="pure", kwargs=["location", "type", "id", "qualifiers"]),
+    "type(self)/1": dict(coq="CircularRecord_new", kind="exc"),
     "type(self)": dict(coq="mk_CircularRecord_kw", kind="pure",
                        kwargs=["seq", "id", "name", "description", "dbxrefs", "features", "annotations",
                                "letter_annotations"]),
@@ -465,6 +466,16 @@ class Fn(object):
                     return self.apply(METHODS[k], [a], e, b)
         raise Unsupported("call %s" % ast.unparse(e)[:100])
 
+    def call_entry(self, e):
+        """the table entry a call resolves to (or {})"""
+        f = e.func
+        if isinstance(f, ast.Attribute):
+            recv_src = ast.unparse(f.value)
+            for k in ((recv_src, f.attr), (hint_of(f.value), f.attr), (None, f.attr)):
+                if k in self.methods:
+                    return self.methods[k]
+        return {}
+
     def subscript(self, e):
         s = e.slice
         # ke.args[0] on a caught exception: the key itself
@@ -657,6 +668,8 @@ class Fn(object):
                     add(v.func.value.value.id)
                 if isinstance(s.value, ast.Call) and ast.unparse(s.value.func) == "warnings.warn":
                     add("warnings_acc")
+                if isinstance(s.value, ast.Call) and self.call_entry(s.value).get("returns_self"):
+                    add("self")
             elif isinstance(s, (ast.For, ast.While)):
                 inner = self.assigned(s.body, cur)
                 for n in inner:
@@ -840,10 +853,18 @@ class Fn(object):
             return self.bind_text(b) + "let %s := rec_append_feature %s %s in\n" % (x, x, atoms[0]) + cont(defined)
         if isinstance(v, ast.Call):
             b, a = self.expr(v)
+            if self.call_entry(v).get("returns_self"):
+                # a call that (re)initialises or updates `self`: its value is the object from here on
+                return self.bind_text(b) + "let self := %s in\n" % a + cont(defined | {"self"})
             return self.bind_text(b) + cont(defined)
         raise Unsupported("expression statement %s" % ast.unparse(v)[:60])
 
     def ifstmt(self, s, rest, defined, fall, retwrap):
+        key = ast.unparse(s.test)
+        if key in self.assume:
+            # specialisation: only the live branch is translated
+            live = s.body if self.assume[key] else s.orelse
+            return self.block(list(live) + list(rest), defined, fall, retwrap)
         t1, t2 = self.terminates(s.body), self.terminates(s.orelse)
         joinable = (not contains_return(s.body) and not contains_return(s.orelse) and rest and not (t1 and t2)
                     and not (self.none_test(s.test) and (t1 or t2)))
@@ -968,6 +989,8 @@ class Fn(object):
                 return "Ok (%s %s)" % (self.spec["ctor"], " ".join("self_" + x for x in fields))
         else:
             def fall(d):
+                if self.spec.get("ret_self"):
+                    return "Ok self"
                 if self.spec.get("ret") == "unit":
                     return "Ok tt"
                 raise Unsupported("control can reach the end of %s without a return" % f.name)
@@ -1009,8 +1032,30 @@ class Translator(object):
                 return n
         raise Unsupported("%s.%s not found in %s" % (cls, name, path))
 
+    def emit_refused(self, spec):
+        """a method replaced by its decorator: @_ambiguous, whose inner function only raises TypeError"""
+        fdef = self.find(spec["file"], spec.get("class"), spec["method"])
+        decos = [ast.unparse(d) for d in fdef.decorator_list]
+        if decos != [spec["decorator"]]:
+            raise Unsupported("%s.%s is decorated with %s, expected @%s" % (spec.get("class"), spec["method"], decos, spec["decorator"]))
+        deco = self.find(spec["file"], None, spec["decorator"])
+        inner = [n for n in deco.body if isinstance(n, ast.FunctionDef)]
+        rets = [n for n in deco.body if isinstance(n, ast.Return)]
+        if len(inner) != 1 or len(rets) != 1 or ast.unparse(rets[0].value) != inner[0].name:
+            raise Unsupported("decorator %s does not return its inner function" % spec["decorator"])
+        body = [n for n in inner[0].body if not (isinstance(n, ast.Expr) and isinstance(n.value, ast.Constant))]
+        if len(body) != 1 or not isinstance(body[0], ast.Raise) or not isinstance(body[0].exc, ast.Call) \
+                or ast.unparse(body[0].exc.func) not in EXCEPTIONS:
+            raise Unsupported("the wrapper of %s does something else than raising" % spec["decorator"])
+        con = EXCEPTIONS[ast.unparse(body[0].exc.func)][0]
+        return "(* %s: %s.%s, replaced by @%s *)\nDefinition %s %s : exc (%s) :=\nErr %s.\n" % (
+            spec["file"], spec.get("class"), spec["method"], spec["decorator"], spec["name"], binder(spec),
+            spec["rettype"], con)
+
     def emit(self, spec):
         """-> Coq text of one definition (or of a group of mutually recursive ones)"""
+        if spec.get("decorator"):
+            return self.emit_refused(spec)
         group = spec.get("group")
         specs = group if group else [spec]
         texts = []
